@@ -405,12 +405,14 @@ class RecList(list):
         return list.__reversed__(self)
 
 
-def measure_append(spec, stream, n, k=1, with_manager=False, form="list"):
+def measure_append(spec, stream, n, k=1, with_manager=False, form="list", edit=False):
     """(#calls into indicator code, #distinct candles read through the list) for the append of candles n .. n+k-1; form: the
     appended data as a list of Candle objects, ONE bare Candle object, a dict or a flat list (k = 1)"""
     cands = RecList(cm.mk_candles(stream[:n]))
     ind = specs.build_indicator(spec, cands, with_manager=with_manager)
     ind.calculate()
+    if edit and isinstance(getattr(ind, "period", None), int):
+        ind.period = ind.period + 1     # (see measure_hexital_append)
     new = cm.mk_candles(stream[n : n + k])
     if k == 1 and form == "bare":
         new = new[0]
@@ -443,7 +445,7 @@ def c07_check(scn):
     k = scn.get("chunk", 1)
     total = len(stream) - k
     mgr = bool(scn.get("with_manager"))
-    res = [measure_append(spec, stream[total - n :], n, k, mgr, scn.get("form", "list")) for n in scn["lengths"]]
+    res = [measure_append(spec, stream[total - n :], n, k, mgr, scn.get("form", "list"), bool(scn.get("edit"))) for n in scn["lengths"]]
     base_calls, base_reach = res[0]
     for n, (calls, reach) in zip(scn["lengths"][1:], res[1:]):
         if calls > base_calls * 1.02 + 3:
@@ -476,7 +478,10 @@ def c07_case(rng, idx, params):
         scn = {"spec": spec, "stream": stream, "lengths": lengths, "chunk": chunk, "with_manager": True}
     if chunk == 1:
         scn["form"] = rng.choice(["list", "bare", "bare", "dict", "flat"])   # every way of handing over ONE candle costs the same
+    if rng.random() < 0.1:
+        scn["edit"] = True
     meta["chunk"] = chunk
+    meta["edit"] = bool(scn.get("edit"))
     meta["form"] = scn.get("form", "list")
     meta["fill_gap"] = bool(scn.get("with_manager"))
     try:
@@ -830,12 +835,20 @@ def c10_rounded_replay(w):
 # ------------------------------------------------------------------------------------ C07 inside a Hexital (inputs that are other readings)
 
 
-def measure_hexital_append(members, stream, n, k=1):
+def measure_hexital_append(members, stream, n, k=1, ha=False, edit=False):
     from hexital.core.hexital import Hexital
 
     cands = RecList(cm.mk_candles(stream[:n]))
-    hx = Hexital("H", cands, [specs.build_indicator(sp, [], with_manager=bool(sp.get("tf"))) for sp in members])
+    inds = [specs.build_indicator(sp, [], with_manager=bool(sp.get("tf"))) for sp in members]
+    hx = Hexital("H", cands, inds, **({"candlestick_type": "HA"} if ha else {}))
     hx.calculate()
+    if edit:
+        # a public parameter reassigned after construction (the use case Hexital.recalculate documents), then one ordinary append in
+        # between: whatever the library makes of the new value, the cost of the NEXT append must not depend on the history
+        for ind in inds:
+            if isinstance(getattr(ind, "period", None), int):
+                ind.period = ind.period + 1
+                break
     new = cm.mk_candles(stream[n : n + k])
     count = [0]
 
@@ -856,7 +869,7 @@ def c07_hexital_check(scn):
     k = scn.get("chunk", 1)
     total = len(scn["stream"]) - k
     has_tf = any(m.get("tf") for m in scn["members"])
-    res = [measure_hexital_append(scn["members"], scn["stream"][total - n :], n, k) for n in scn["lengths"]]
+    res = [measure_hexital_append(scn["members"], scn["stream"][total - n :], n, k, bool(scn.get("ha")), bool(scn.get("edit"))) for n in scn["lengths"]]
     base_calls, base_reach = res[0]
     # members on collapsing timeframes: the two histories start at different phases of the bucket grid, which moves a few warm-up
     # dependent look-ups (observed: +-2 readings); anything that grows with the history grows by hundreds
@@ -912,12 +925,16 @@ def c07_hexital_case(rng, idx, params):
         up = rng.choice([1.0, -1.0]) * rng.choice([1.0, 5.0])
         stream = [(t[0], lvl, lvl, lvl, lvl, 10) for t in stream[:-1]] + [(stream[-1][0], lvl, max(lvl, lvl + up), min(lvl, lvl + up), lvl + up, 10)]
     scn = {"members": members, "stream": stream, "lengths": lengths, "chunk": chunk}
+    if rng.random() < 0.3:
+        scn["ha"] = True        # one converter object shared by the default manager and every member manager
+    if not tie_move and rng.random() < 0.15:
+        scn["edit"] = True
     try:
         bad = c07_hexital_check(scn)
     except Exception:
         bad = None
     viol = {"scenario": scn, **bad, "signature": f"C07:hexital:{members[-1]['kind']}:{bad['clause']}"} if bad else None
-    meta.update({"kind": "hexital:" + members[-1]["kind"]})
+    meta.update({"kind": "hexital:" + members[-1]["kind"], "ha": bool(scn.get("ha")), "edit": bool(scn.get("edit"))})
     return {"nontrivial": True, "key": hash(str(members) + str(stream[:3])), "violation": viol, "meta": meta,
             "sample": {"members": members, "lengths": lengths} if idx < 1 else None}
 
